@@ -139,24 +139,26 @@ Q_FUNCS = ["Quantile::{new,add,quantile,len,is_empty,p,parabolic,linear,estimate
 PLANS["C07"] = {
     "k": [
         K("c07::grid1", note="n=1: p any double with <= 13 significant bits in {0} U [2^-12,1] (contains every m/4096), value any finite double"),
-        K("c07::grid2", note="n=2, same p set, all value pairs in arrival order (all permutations/ties)"),
-        K("c07::grid3", timeout=600, note="n=3"),
-        K("c07::grid4", timeout=900, note="n=4"),
-        K("c07::twelfth2", timeout=600, note="n=2: p = fl(c/12) and its two floating-point neighbours"),
-        K("c07::twelfth3", timeout=600, note="n=3: includes the unrepresentable thirds and both neighbours"),
-        K("c07::twelfth4", tier="thorough", timeout=1800, note="n=4"),
+        K("c07::grid3", timeout=600, note="n=3, same p set, all value triples (full doubles) in arrival order: all permutations and ties"),
+        K("c07::lat2", timeout=600, note="n=2, same p set, values on the lattice i16/4 (keeps the averaging products narrow)"),
+        K("c07::lat4", timeout=900, note="n=4, same p set, lattice values: includes the averaging cases p = 1/4, 1/2, 3/4"),
+        K("c07::twelfth2_lat", timeout=600, note="n=2: p = fl(c/12) and both floating-point neighbours, lattice values"),
+        K("c07::twelfth3_lat", timeout=600, note="n=3: includes the unrepresentable thirds and both neighbours, lattice values"),
+        K("c07::twelfth4_lat", tier="thorough", timeout=1800, note="n=4, lattice values"),
+        K("c07::grid2", tier="thorough", timeout=3600, note="n=2, full-double values"),
+        K("c07::grid4", tier="thorough", timeout=7200, note="n=4, full-double values"),
+        K("c07::twelfth2", tier="thorough", timeout=3600, note="n=2, full doubles"),
+        K("c07::twelfth3", tier="thorough", timeout=7200, note="n=3, full doubles"),
         K("c07::free1", tier="thorough", timeout=1800, note="n=1, p any double in [0,1]"),
-        K("c07::free2", tier="thorough", timeout=3600, note="n=2, p any double in [0,1] (n*p exact)"),
-        K("c07::free4", tier="thorough", timeout=7200, note="n=4, p any double in [0,1] (n*p exact)"),
-        K("c07::free3", tier="thorough", timeout=7200, note="n=3, p any double in [0,1], acceptance-set oracle"),
+        K("c07::free2", tier="thorough", timeout=7200, note="n=2, p any double in [0,1] (n*p exact)"),
     ],
     "meta": {
         "functions_encoded": Q_FUNCS,
-        "bounds": ["n in {1,2,3,4} observations, finite doubles with |x| <= 1e300, every arrival order",
-                   "p: 13-significant-bit grid (quick), c/12 +- 1 ulp (quick n=2,3), free double (thorough)"],
-        "outside_bounds": ["free-double p may not finish within the thorough budget (reported inconclusive, never success)"],
-        "assumptions": COMMON_ASSUME + ["oracle: sorted copy v; p=0 -> v[0]; p=1 -> v[n-1]; exact whole n*p=j -> (v[j-1]+v[j])/2 within 2 ulp; "
-                                        "else v[ceil(n*p)-1]; when only fl(n*p) is within 1 ulp of whole j: any of v[j-1], v[j], their average"],
+        "bounds": ["n in {1,2,3,4} observations in every arrival order; values: any finite double with |x| <= 1e300 (grid1, grid3, thorough) or the lattice i16/4",
+                   "p: 13-significant-bit grid containing every m/4096; c/12 +- 1 ulp; free double for n in {1,2} (thorough)"],
+        "outside_bounds": ["free-double p at n = 3, 4 (did not finish in 15 min in probes)", "full-double values at n = 2, 4 are thorough-tier only"],
+        "assumptions": COMMON_ASSUME + ["oracle: sorted copy v; p=0 -> v[0]; p=1 -> v[n-1]; exact whole n*p=j -> midpoint of v[j-1], v[j] (2r within 4 ulp of the sum); "
+                                        "else v[ceil(n*p)-1]; when only fl(n*p) is within 1 ulp of whole j: any of v[j-1], v[j], their midpoint"],
     },
 }
 
@@ -164,22 +166,23 @@ NEW_PANIC = [r"assertion failed: \(0\. \.\.=1\.\)\.contains\(&p\)"]
 PLANS["C15"] = {
     "k": [
         K("c15::stream1", note="p any double in [0,1]; 1 finite observation: len/is_empty/p()/quantile range after every add"),
-        K("c15::stream2", note="2 observations"),
-        K("c15::stream3", timeout=600, note="3 observations"),
-        K("c15::stream4", timeout=900, note="4 observations"),
-        K("c15::stream5", timeout=1200, note="5 observations; at the fifth: heights sorted, extremes = min/max, positions 1..5"),
+        K("c15::lat_stream3", timeout=900, note="3 observations on the lattice i16/4, p on the 13-bit grid"),
+        K("c15::lat_stream5", timeout=1200, note="5 lattice observations; at the fifth: heights sorted, extremes = min/max, positions 1..5"),
         K("c15::new_invalid", must_panic=True, allow_fail=NEW_PANIC, require_fail=NEW_PANIC, allow_panic=NEW_PANIC,
           note="Quantile::new(p) for every p outside [0,1] or NaN panics"),
-        K("c15::step_newmin", timeout=900, note="inductive step from any well-formed marker state (count <= 2^40, full doubles), sample below the first marker"),
-        K("c15::step_top", timeout=900, note="same, sample at or above the last marker"),
-        K("c15::step_interior", tier="thorough", timeout=3600, note="same, sample strictly inside the marker range"),
-        K("c15::step_lat", tier="thorough", timeout=5400, note="heights/sample on an i8 lattice (offset k*1024), positions <= 32: heights stay ordered, quantile() in [min,max]"),
+        K("c15::stream2", tier="thorough", timeout=3600, note="2 full-double observations, p any double"),
+        K("c15::lat_stream4", tier="thorough", timeout=3600, note="4 lattice observations"),
+        K("c15::stream3", tier="thorough", timeout=7200, note="3 full-double observations"),
+        K("c15::step_newmin", tier="thorough", timeout=3600, note="inductive step from any well-formed marker state (count <= 2^40, full doubles), sample below the first marker"),
+        K("c15::step_top", tier="thorough", timeout=3600, note="same, sample at or above the last marker"),
+        K("c15::step_interior", tier="thorough", timeout=7200, note="same, sample strictly inside the marker range"),
+        K("c15::step_lat", tier="thorough", timeout=7200, note="heights/sample on an i8 lattice (offset k*1024), positions <= 32: heights stay ordered, quantile() in [min,max]"),
     ],
     "meta": {
         "functions_encoded": Q_FUNCS,
-        "bounds": ["streams of 1..5 full-double observations from new(p), p any double in [0,1]",
-                   "one add from an arbitrary well-formed state: heights finite non-decreasing, positions strictly increasing 1..count<=2^40, desired positions arbitrary finite"],
-        "outside_bounds": ["height ordering after marker moves for off-lattice doubles (bit-blasting the parabolic formula does not finish); decided in exact arithmetic by engine M in C05",
+        "bounds": ["K: streams of 1 (full doubles), 3 and 5 (lattice i16/4) observations from new(p); one add from an arbitrary well-formed state (thorough)",
+                   "M: every well-formed marker state with count >= 5, every p in [0,1], real heights"],
+        "outside_bounds": ["height ordering after marker moves for off-lattice doubles (bit-blasting the parabolic formula does not finish); decided in exact arithmetic by engine M",
                            "a counterexample of the step harness starts from a hook-built state that may be unreachable; it is replayed natively from that state"],
         "assumptions": COMMON_ASSUME,
     },
@@ -245,7 +248,7 @@ PLANS["C17"] = {
         K("c17::variance_merge_sign", timeout=900, note="Variance: merge of two arbitrary states"),
         K("c17::covariance_add_sign", timeout=900, note="Covariance x/y variances after add"),
         K("c17::covariance_merge_sign", timeout=900, note="Covariance x/y variances after merge"),
-        K("c17::moments4_add_sign", timeout=900, note="Moments4 second central sum after add"),
+        K("c17::moments4_add_sign", tier="thorough", timeout=1800, note="Moments4 second central sum after add"),
         K("c17::mean_first", note="first observation: mean exactly x"),
         K("c17::mean_add_hull", timeout=1200, note="Welford step with count 1..1024: new mean between old mean and sample up to 2^-49*max"),
         K("c17::variance_mean_add_hull", tier="thorough", timeout=3600, note="same through Variance::add"),
@@ -261,21 +264,20 @@ PLANS["C17"] = {
     },
 }
 
+QUICK_C20 = {("mean3", "a"), ("mean3", "b"), ("variance3", "a"), ("variance3", "b"), ("skewness3", "b")}
 PLANS["C20"] = {
     "k": [
-        K("c20::mean3", timeout=600, note="Mean: 3 symbolic values: collect by value / by reference / extend in two pieces at a symbolic split == add loop, bit for bit"),
-        K("c20::variance3", timeout=900, note="Variance"), K("c20::skewness3", timeout=900, note="Skewness"),
-        K("c20::kurtosis3", timeout=1200, note="Kurtosis"), K("c20::moments4_3", timeout=1200, note="Moments4"),
-        K("c20::covariance3", timeout=1200, note="Covariance (pairs)"), K("c20::weighted3", timeout=900, note="WeightedMean (pairs)"),
-        K("c20::weighted_err3", timeout=1200, note="WeightedMeanWithError (pairs)"),
-        K("c20::estimate_is_headline", timeout=900, note="estimate() == headline accessor on arbitrary states"),
-        K("c20::concat_short", timeout=900, note="concatenate! short syntax [Min,Max,Mean]: new/default/collect"),
-        K("c20::concat_long", timeout=1800, note="concatenate! long syntax [Variance x4, Quantile, Kurtosis x2]"),
+    ] + [K("c20::%s%s" % (h, s), timeout=600 if (h, s) in QUICK_C20 else 3600, tier="quick" if (h, s) in QUICK_C20 else "thorough",
+           note="%s: concrete data vector %s, symbolic split: collect by value / by reference / extend in two pieces == add loop, bit for bit" % (h, s.upper()))
+         for h in ("mean3", "variance3", "skewness3", "kurtosis3", "moments4_3", "covariance3", "weighted3", "weighted_err3") for s in ("a", "b")] + [
+        K("c20::concat_short", timeout=600, note="concatenate! short syntax [Min,Max,Mean]: new/default/collect, prefix length symbolic"),
+        K("c20::concat_long", tier="thorough", timeout=5400, note="concatenate! long syntax [Variance x4, Quantile, Kurtosis x2]"),
     ],
     "meta": {
         "functions_encoded": MOMENT_FUNCS + ["impl_from_iterator!, impl_extend! expansions", "FromIterator/Extend for pair estimators", "concatenate! expansions in the harness crate"],
-        "bounds": ["sequences of 3 values over the C01 domain (pairs for pair estimators), symbolic split point for extend"],
-        "outside_bounds": ["sequences longer than 3 (every path is the same add loop; the element count is checked through len)"],
+        "bounds": ["K: two concrete data vectors of 3 values, symbolic split point / prefix length (bit-level agreement)",
+                   "M: 3 (quick) / 4 (thorough) symbolic real values: identical add-call sequences and final states for every path; concatenate! with 3 / 5 values"],
+        "outside_bounds": ["bit-level agreement for arbitrary doubles is implied by M's identical call sequences (add is deterministic), not bit-blasted"],
         "assumptions": COMMON_ASSUME,
     },
 }
@@ -373,3 +375,11 @@ PLANS["C19"] = {
         "assumptions": COMMON_ASSUME,
     },
 }
+
+_mplan("C20", "plan_c20", ["impl_from_iterator!/impl_extend! expansions for Mean, Variance, Skewness, Kurtosis, Moments4; FromIterator/Extend of WeightedMean, "
+                           "WeightedMeanWithError, Covariance; Estimate::estimate; concatenate! structs CatShort/CatLong of the mirprobe crate"],
+       [], [])
+
+_mplan("C15", "plan_c15", ["Quantile::{new, add, quantile, len, is_empty, p} (MIR)"],
+       ["M: positions/extreme markers on every execution path of one add from any well-formed state; height ordering and middle marker within [min,max] as properties of "
+        "the P-square update the code is shown to conform to (C05)"], [])
